@@ -9,7 +9,8 @@ func init() {
 		Rule: "a case = (shared secret, library version 0-4, generation known/unknown, family, transport, transport parameters, subnet configuration); " +
 			"each case runs the real station path (parseRegMessage -> NewRegistrationC2SWrapper), the in-repo client code and an independent reference, and compares the three; " +
 			"distinct_nontrivial = distinct case descriptors for which the station produced a registration and every derived value (address, port, identifier / keys) " +
-			"was compared against the reference or frozen vector and against the client",
+			"was compared against the reference or frozen vector and against the client; a dual-stack case (ONE message with both families, both registrations observed in both " +
+			"identifier orders) contributes one descriptor per family",
 		Assumptions: []string{
 			"the published algorithm is pinned by a reference written for this check and by vectors frozen from the pinned tree; if the pinned tree already disagreed with deployed clients nothing here would know",
 			"for library versions < 4 and for fixed secrets the client-side seed comes from the reference HKDF (the repository has no client entry point that takes a chosen secret); " +
